@@ -117,7 +117,7 @@ var rulePoll = &Rule{
 			}
 		}
 		out.Counts["context_taking_functions"] = len(fns)
-		out.Floors["context_taking_functions"] = 40
+		out.Floors["context_taking_functions"] = 13
 		polls := map[*ssa.Function]bool{}
 		for _, fn := range fns {
 			if p.pollSite(fn) != nil {
